@@ -42,6 +42,8 @@ type profile struct {
 	reloadW       int  // weight of no-op configuration reloads
 	longKeys      bool // adversarial keys include URIs longer than 256 bytes differing only in the middle
 	shardKeys     bool // address keys by LRU shard (small caches: makes evictions replayable)
+	shards        int  // how many shards the keys are spread over (0 => 4)
+	varLen        bool // URIs of many lengths
 }
 
 var hostsPool = []string{"a.test", "b.test", "A.test", "a.test.", "ab.test"}
@@ -60,8 +62,11 @@ func genKeys(t *rapid.T, p *profile) []Key {
 	for i := 0; i < n; i++ {
 		m := rapid.SampledFrom(p.methods).Draw(t, "method")
 		k := Key{Method: m, Host: "a.test", URI: fmt.Sprintf("/k%d", i)}
+		if p.varLen {
+			k.URI += strings.Repeat("x", rapid.IntRange(0, 40).Draw(t, "pad"))
+		}
 		if p.shardKeys {
-			sh := rapid.IntRange(0, 3).Draw(t, "shard")
+			sh := rapid.IntRange(0, max(p.shards, 4)-1).Draw(t, "shard")
 			k.Shard = &sh
 		}
 		keys = append(keys, k)
@@ -669,4 +674,26 @@ func TestC08Sim(t *testing.T) {
 	vstat.Run(t, "C08", "sim", genScenario(p), execSim(t, "C08", func(s *modelStats, tr *trace) bool {
 		return s.ReloadHits >= 1
 	}, stdClasses))
+}
+
+// TestC11Sim: C11 through the server's cache middleware -- small caches with and without a
+// store, key populations larger than the cache with URIs of many lengths, histories far
+// longer than the size; the residency invariant is checked after every operation
+func TestC11Sim(t *testing.T) {
+	installWedge(t, "C11")
+	p := &profile{prop: "C11", minKeys: 6, maxKeys: 40, methods: []string{"GET", "GET", "GET", "HEAD"}, shardKeys: true, shards: 8, varLen: true,
+		twoServers: 20, stores: []string{"", "mem", "mem", "lazy"}, cacheSizes: []int{1, 2, 3, 5, 7, 8, 9, 15, 16, 17, 24}, hfps: []int{0, 2}, proxyTimeouts: []int{0},
+		lifetimes: []int{2, 5, 60}, outcomes: []string{"cacheable", "cacheable", "cacheable", "uncacheable"},
+		parkPct: 5, w: [6]int{55, 33, 5, 3, 4, 0}, minOps: 20, maxOps: 160,
+		macros: []string{"evictReload"}, macroPct: 8,
+		bodyLens: []int{0, 40}, aes: []string{"", "gzip"}}
+	vstat.Run(t, "C11", "sim", genScenario(p), execSim(t, "C11", func(s *modelStats, tr *trace) bool {
+		return s.Evictions >= 1 && tr.FullSeen
+	}, func(s *modelStats, tr *trace, out *vstat.Outcome) {
+		stdClasses(s, tr, out)
+		out.Class(fmt.Sprintf("size_%d", tr.Scenario.Cfg.CacheSize))
+		if tr.Scenario.Cfg.Store != "" {
+			out.Class("with_store")
+		}
+	}))
 }
